@@ -80,7 +80,7 @@ GroupChoicesA == {<<NoReq(2)>>, <<NoReq(1), NoReq(2)>>, <<NoReq(3), NoReq(2)>>} 
 NoAttrs       == {<<>>}
 NoKeys        == {{}}
 \* requirements / attestations (C08, C07)
-ReqChoices    == {<<>>, Attr("key1", "x"), Attr("key2", "x"), Attr("key1", "x") @@ Attr("key2", "x")}
+ReqChoices    == {<<>>, Attr("key1", "x"), Attr("key2", "x"), Attr("key1", "x") @@ Attr("key2", "x"), Attr("key6", "")}
 SignChoices   == {<<{}, {}>>, <<{"a1"}, {}>>, <<{}, {"a1", "a2"}>>, <<{"a1"}, {"a2"}>>, <<{"a1", "a2"}, {}>>, <<{}, {"a2"}>>}
 GroupChoicesR == {<<[price |-> 2, req |-> r, allOf |-> sg[1], anyOf |-> sg[2]]>> : r \in ReqChoices, sg \in SignChoices}
 AttrChoicesR  == {<<>>, Attr("key1", "x"), Attr("key1", "y"), Attr("key1", "x") @@ Attr("key2", "x"), Attr("key2", "x"),
@@ -88,7 +88,8 @@ AttrChoicesR  == {<<>>, Attr("key1", "x"), Attr("key1", "y"), Attr("key1", "x") 
                   Attr("key3", "y") @@ Attr("Key3", "y") @@ Attr("key6", "y") @@ Attr("Key6", "y") @@ Attr("key-7", "y")}
 \* exhaustive family for the admission predicate and the provider update guard (C08)
 GroupChoicesRX == {<<[price |-> 2, req |-> Attr("key1", "x"), allOf |-> {}, anyOf |-> {}]>>,
-                   <<[price |-> 2, req |-> Attr("key2", "x"), allOf |-> {}, anyOf |-> {}]>>}
+                   <<[price |-> 2, req |-> Attr("key2", "x"), allOf |-> {}, anyOf |-> {}]>>,
+                   <<[price |-> 2, req |-> Attr("key3", ""), allOf |-> {}, anyOf |-> {}]>>}   \* a flag attribute: empty value
 AttrChoicesRX  == {Attr("key1", "x") @@ Attr("key2", "x"), Attr("key1", "x"), Attr("key2", "x")}
 KeyChoicesR   == {{}, {"key1"}, {"key1", "key2"}, {"key3", "key4"}}
 
